@@ -41,6 +41,7 @@ inductive FailClass
   | forkFailed
   | waitFailed
   | eintrGiveUp
+  | noFork                        -- "-p doesn't work on this platform, as it is lacking fork."
 deriving Repr, DecidableEq, Inhabited
 
 structure Failure where
@@ -76,6 +77,7 @@ def statusFailures (s : BitVec 32) : List Failure := chainFailures statusChain s
 def forkFailure : Failure := { cls := .forkFailed, text := msgForkFailed }
 def waitFailure : Failure := { cls := .waitFailed, text := msgWaitFailed }
 def giveUpFailure : Failure := { cls := .eintrGiveUp, text := msgEintrGiveUp }
+def noForkFailure : Failure := { cls := .noFork, text := msgNoFork }
 
 /-! ## the parent's wait loop -/
 
@@ -85,6 +87,7 @@ inductive LoopEnd
   | gaveUp          -- too many EINTR
   | waitError       -- waitpid failed with another errno
   | forkFailed      -- fork failed, nothing waited for
+  | noFork          -- the platform has no fork/waitpid/kill: nothing forked, nothing waited for
   | starved         -- the known outcomes ran out: the parent is (still) blocked in waitpid
 deriving Repr, DecidableEq, Inhabited
 
@@ -127,9 +130,40 @@ def runSeparate (t : TestScript) : LoopResult :=
   if t.forkOk then parentLoop 0 t.outs
   else { failures := [forkFailure], consumed := 0, conts := 0, ended := .forkFailed }
 
-/-- the child's side: `_exit(initialFailureCount < result->getFailureCount())` -/
+/-- the build variants of `GccPlatformSpecificRunTestInASeperateProcess`:
+    `#if !defined(CPPUTEST_HAVE_FORK) || !defined(CPPUTEST_HAVE_WAITPID) || !defined(CPPUTEST_HAVE_KILL)` -/
+inductive Platform
+  | withFork
+  | withoutFork
+deriving Repr, DecidableEq, Inhabited
+
+/-- `PlatformSpecificRunTestInASeperateProcess(shell, plugin, result)` on either build -/
+def runSeparateOn (pf : Platform) (t : TestScript) : LoopResult :=
+  match pf with
+  | .withFork => runSeparate t
+  | .withoutFork => { failures := [noForkFailure], consumed := 0, conts := 0, ended := .noFork }
+
+/-! ## the child's side -/
+
+/-- `_exit(initialFailureCount < result->getFailureCount())` -/
 def childExitCode (initialFailures finalFailures : Nat) : Nat :=
   if initialFailures < finalFailures then 1 else 0
+
+/-- What one step of `runOneTestInCurrentProcess` does in the child: the plugins' pre actions,
+    the test (setup / body / teardown), the plugins' post actions, in this order.  A step either
+    adds failures to `result` (a failed check, or a plugin calling `result.addFailure`, which does
+    not touch `UtestShell::hasFailed_`) and goes on, or ends the process. -/
+inductive ChildStep
+  | adds (failures : Nat)         -- returns, having added that many failures to `result`
+  | dies (status : BitVec 32)     -- the process ends here with this wait status (signal, _exit(n))
+deriving Repr, DecidableEq, Inhabited
+
+/-- the wait status the parent will see for a child that starts with `initial` failures in
+    `result`, has `cur` now, and still has to run `steps` -/
+def childStatus (initial cur : Nat) : List ChildStep → BitVec 32
+  | [] => BitVec.ofNat 32 (childExitCode initial cur * 256)
+  | .adds k :: rest => childStatus initial (cur + k) rest
+  | .dies s :: _ => s
 
 /-! ## the registry loop, as far as separate-process mode is concerned -/
 
@@ -138,9 +172,10 @@ structure RunState where
   runCount : Nat                       -- `TestResult::runCount_`
   failures : List (Nat × Failure)      -- (test, failure) in the order they were added
   hung     : Bool                      -- the parent is blocked waiting for a child
+  inRunner : List Nat                  -- tests executed inside the runner process itself
 deriving Repr, DecidableEq, Inhabited
 
-def RunState.init : RunState := { started := [], runCount := 0, failures := [], hung := false }
+def RunState.init : RunState := { started := [], runCount := 0, failures := [], hung := false, inRunner := [] }
 
 /-- `TestResult::getFailureCount()` -/
 def RunState.failureCount (st : RunState) : Nat := st.failures.length
@@ -148,20 +183,70 @@ def RunState.failureCount (st : RunState) : Nat := st.failures.length
 /-- the run is reported as failed (`Errors (…)`, non-zero exit code of the runner) -/
 def RunState.overallFailure (st : RunState) : Bool := st.failureCount != 0
 
-/-- one pass of the `for` loop of `TestRegistry::runAllTests` for test number `idx`
-    (filters select everything; `runOneTest` counts the run, then runs the test) -/
-def runTestAt (idx : Nat) (t : TestScript) (st : RunState) : RunState :=
+/-- `CommandLineTestRunner::runAllTests` (one repetition): the runner's exit code is the number
+    of failures (a run without failures that ran at least one test returns 0) -/
+def RunState.exitCode (st : RunState) : Nat :=
+  if st.failureCount != 0 then st.failureCount else if st.runCount == 0 then 1 else 0
+
+/-- one pass of the `for` loop of `TestRegistry::runAllTests` for test number `idx` whose
+    separate-process run gives `r` (filters select everything; `runOneTest` counts the run) -/
+def runResultAt (idx : Nat) (r : LoopResult) (st : RunState) : RunState :=
   { started := st.started ++ [idx],
     runCount := st.runCount + 1,
-    failures := st.failures ++ (runSeparate t).failures.map (fun f => (idx, f)),
-    hung := decide ((runSeparate t).ended = .starved) }
+    failures := st.failures ++ r.failures.map (fun f => (idx, f)),
+    hung := decide (r.ended = .starved),
+    inRunner := st.inRunner }
 
-def runTests (idx : Nat) : List TestScript → RunState → RunState
+def runResults (idx : Nat) : List LoopResult → RunState → RunState
+  | [], st => st
+  | r :: rs, st =>
+    if (runResultAt idx r st).hung then runResultAt idx r st
+    else runResults (idx + 1) rs (runResultAt idx r st)
+
+def runTests (idx : Nat) (ts : List TestScript) (st : RunState) : RunState :=
+  runResults idx (ts.map runSeparate) st
+
+/-- a registry whose tests all carry the separate-process flag -/
+def runAll (ts : List TestScript) : RunState := runTests 0 ts RunState.init
+
+/-- the same on either build variant -/
+def runAllOn (pf : Platform) (ts : List TestScript) : RunState :=
+  runResults 0 (ts.map (runSeparateOn pf)) RunState.init
+
+/-! ### which tests get the flag: `runAllTests` line by line -/
+
+structure RegTest where
+  group  : Nat                    -- tests with equal, adjacent group names form a group
+  script : TestScript
+deriving Repr, DecidableEq, Inhabited
+
+/-- `if (runInSeperateProcess_) test->setRunInSeperateProcess();` at its place in the loop:
+    is it executed for a test at which `groupStart` has the given value? -/
+def sepFlag (p : SepFlagPlacement) (groupStart : Bool) : Bool :=
+  match p with
+  | .everyTest => true
+  | .groupStartOnly => groupStart
+
+/-- `endOfGroup(test)`: no next test, or the next test's group differs -/
+def endOfGroup (g : Nat) : List RegTest → Bool
+  | [] => true
+  | t :: _ => g != t.group
+
+/-- a test without the flag is run by `runOneTest` in the current process (the runner) -/
+def runInRunnerAt (idx : Nat) (st : RunState) : RunState :=
+  { st with started := st.started ++ [idx], runCount := st.runCount + 1, inRunner := st.inRunner ++ [idx] }
+
+/-- `TestRegistry::runAllTests` after `setRunTestsInSeperateProcess()`; `groupStart` as in the code -/
+def runRegistryFrom (p : SepFlagPlacement) (idx : Nat) (groupStart : Bool) : List RegTest → RunState → RunState
   | [], st => st
   | t :: ts, st =>
-    if (runTestAt idx t st).hung then runTestAt idx t st
-    else runTests (idx + 1) ts (runTestAt idx t st)
+    if sepFlag p groupStart then
+      if (runResultAt idx (runSeparate t.script) st).hung then runResultAt idx (runSeparate t.script) st
+      else runRegistryFrom p (idx + 1) (endOfGroup t.group ts) ts (runResultAt idx (runSeparate t.script) st)
+    else runRegistryFrom p (idx + 1) (endOfGroup t.group ts) ts (runInRunnerAt idx st)
 
-def runAll (ts : List TestScript) : RunState := runTests 0 ts RunState.init
+/-- the registry as the source has it (placement regenerated from `runAllTests`) -/
+def runRegistry (ts : List RegTest) : RunState :=
+  runRegistryFrom sepFlagPlacement 0 true ts RunState.init
 
 end SepProc
